@@ -2462,7 +2462,9 @@ func (g *fhGen) gen(maxLen int) fhCase {
 			d.Steps = append(d.Steps, s)
 			continue
 		}
-		if s.Mode == "run" && g.prop == "c04" && len(t.Status) > 0 && len(t.Sources) > 0 && g.chance(12) {
+		// (not for a task with a `dir:`: while that directory does not exist the status command cannot even
+		// start, so there is nothing for the cancellation to interrupt)
+		if s.Mode == "run" && g.prop == "c04" && t.Dir == "" && len(t.Status) > 0 && len(t.Sources) > 0 && g.chance(12) {
 			s.Sib, s.Yes, s.NoG = true, true, false // (whose error the parent reports when both happen is a race)
 			d.Steps = append(d.Steps, s)
 			continue
